@@ -49,6 +49,7 @@ STRENGTHENED = {
     "C01-5": "caught by C10 after `c10ev.py` gained short spans on fine grids (tf = 1e-5 on 2001 nodes): stamps are the grid, samples on the flow",
     "C02-6": "`c02acc.py`: two oscillators of amplitude 1e3 and 1e-3, error of every component against its OWN tolerance",
     "C03-5": "short-span STM contract: tf = 1.5e-5 on the default 2000-node grid, Phi against I + A tf with the C01-verified Jacobian, near the secondary too",
+    "C03-7": "not a new input family but a harness defect: the mutant (mu/mu2 slip in the out-of-plane Hessian entry) makes the halo fixture uncorrectable, and the exception aborted the run (exit 2) before the spatial fd_column/tangent contracts, which do see it, were decided; fixture failures are now collected, the STM contracts decide, and the run is inconclusive (exit 2) only when nothing else failed",
     "C04-5": "orbits of every family with an analytic seed are built FROM the point between the two rounds of memoised reads (LibrationObject.tla: a re-read returns the value first returned)",
     "C05-5": "history: orbit rebuilt from a converged state (zero Newton iterations) carrying a rounded period; closure with the period the object reports",
     "C05-6": "the scripted-solver replay hands the stepper to the backend three ways in rotation (constructor, per call, per call over a different constructor stepper)",
@@ -102,7 +103,7 @@ def main():
     own = sum(1 for r in rows if r[0].split("-")[0] in r[3].split(", "))
     out = ["## 12. Seeded changes: which checks catch which", "",
            "Generated by `tools/design12.py` from `/verif/seeded/*/meta.json` (do not edit by hand).", "",
-           "The seeded changes (three rounds of 40: two per property and round) were written by fresh sub-agents that were given only the text of one property and a",
+           "The seeded changes (three rounds of 40: two per property and round, plus a short fourth round of one change each for C03, C04, C08, C16: ids ending in -7) were written by fresh sub-agents that were given only the text of one property and a",
            "scratch git worktree (nothing from /verif).  Each change compiles, passes the repository's tests that cover the",
            "files it touches, and needs something specific to manifest (a particular argument, history, parameter region or",
            "schedule: column *needs* of `seeded/SUMMARY.md`).  Each directory `seeded/<id>/` holds `patch.diff`, `demo.py`",
@@ -130,9 +131,13 @@ def main():
             "* A check that hangs is a broken check: `harness/main.py` has a watchdog (see 11.5).",
             "* *Rounds matter.*  The share of changes missed at first was 50 % in round 1, 32 % in round 2 and about 50 % in round 3 (whose",
             "  prompt excluded the kinds of change used before): each round exposed input families, not single cases, and one remark of a",
-            "  seeding agent led to a genuine defect of the library (11.5).  Every one of the 120 changes is caught by the final checks",
+            "  seeding agent led to a genuine defect of the library (11.5).  Every one of the 120 changes of rounds 1-3 is caught by the final checks",
             "  (re-verified after the last change to any check; three are caught by a neighbouring property's check only: C03-4, C03-6 by",
-            "  C13, C09-5 by C08 and by C09's thorough tier).", ""]
+            "  C13, C09-5 by C08 and by C09's thorough tier).  The fourth round (4 changes, ids -7) was caught 3 of 4 at once; the fourth (C03-7)",
+            "  exposed a harness weakness rather than a missing input family: an uncorrectable fixture orbit ended the C03 run with exit 2",
+            "  before the contracts that see the change were decided.  For C16-7 the seeding agent's own demonstration did not discriminate",
+            "  (it failed on the clean tree too); the change was kept with the demonstration the agent proposed, written by the main session",
+            "  (seeded/C16-7/meta.json: demo_note).", ""]
     text = open("/verif/DESIGN.md").read()
     i = text.index("## 12. Seeded changes: which checks catch which")
     open("/verif/DESIGN.md", "w").write(text[:i] + "\n".join(out))
